@@ -12,7 +12,7 @@ Every case carries its descriptor (spec/Access.tla format) in the logged event; 
 made by TLC.  The selection is pairwise-covering + seeded random, fixed (compile time)."""
 import itertools, json, random, sys
 
-COMPS = ["Z", "B", "S", "W", "H"]
+COMPS = ["Z", "B", "S", "W", "H", "T5", "T6", "T7", "T8"]
 KINDS = ["ref", "mut", "optref", "optmut"]
 
 def ty(c, k):
@@ -80,7 +80,7 @@ def family(n_iter, n_entry, n_entries, n_par, n_mixed, seed=7):
     while k < n_entries:
         if k < len(pairs):
             sup_k, sub_k = pairs[k]
-            c = COMPS[2 + k % 3]
+            c = ["S", "W", "H", "T8"][k % 4]
             sup = [(c, sup_k)]
             sub = [(c, sub_k)]
             extra = rnd.choice([x for x in COMPS if x != c])
